@@ -575,6 +575,9 @@ func c04Check(src string, cmds []ast.Command, comments []*ast.Comment) []string 
 var _ = reflect.DeepEqual
 
 func c04One(w *W, ss []sym, r rendered) {
+	if strings.Contains(r.src, "\\\n") {
+		return // text inside line continuations (also in a here-document body) is a documented exclusion of the property
+	}
 	w.Announce(r.src)
 	o := runParse(r.src)
 	if o.pan != nil || o.err != nil {
